@@ -329,6 +329,19 @@ def run_scenario(scn, validity=None, goal_fault=None, log=None, goal_ref=None, r
 
     out = []
     callbacks = {}
+    # A bystander: a second planner on the same problem definition, set up with a HEALTHY
+    # callback before the scenario's calls and queried after them, without another setup.
+    # Whatever the scenario's own planner and its (failing) callback do in between, on the same
+    # thread, is none of the bystander's business.
+    bystander = None
+    if scn["params"].get("bystander"):
+        try:
+            bystander = G.RRT(p["max_distance"] if p["max_distance"] > 0 else 0.3, 0.2, pd, B.PlannerConfig(seed=p["seed"]))
+            bw = world
+            bystander.setup(lambda s: bw.valid(s))
+        except BaseException as e:
+            out.append({"res": "err", "text": "bystander setup: " + str(e)})
+            bystander = None
     for c in scn["calls"]:
         op = c["op"]
         try:
@@ -357,7 +370,19 @@ def run_scenario(scn, validity=None, goal_fault=None, log=None, goal_ref=None, r
                         # query: from now on the installed method is the (mis)behaving one
                         goal._rebound = True
                         goal.is_satisfied = _rebound_method(goal, goal_fault)
-                out.append({"res": "path", "path": [enc(s) for s in path.states]})
+                states = path.states
+                first = [enc(s) for s in states]
+                # what client code does with the list it was handed (reorder, shorten, extend)
+                # is its own business: the Path object keeps reporting the planner's path
+                if len(states) > 0:
+                    states.reverse()
+                    states.pop()
+                    states.append(states[0] if states else None)
+                again = [enc(s) for s in path.states]
+                if not (len(first) == len(again) and all(bits_eq(a, b) for a, b in zip(first, again))) or len(path) != len(first):
+                    out.append({"res": "path_changed_after_client_edit", "text": f"Path.states read again after the client edited the returned list: {len(again)} states (len(path) = {len(path)}), first read {len(first)}"})
+                else:
+                    out.append({"res": "path", "path": first})
             else:
                 out.append({"res": "ok"})
         except BaseException as e:  # pyo3 maps core errors to Exception; a panic is a BaseException
@@ -366,6 +391,12 @@ def run_scenario(scn, validity=None, goal_fault=None, log=None, goal_ref=None, r
                 out.append({"res": "panic", "text": str(e)})
                 break
             out.append({"res": "err", "text": str(e)})
+    if bystander is not None:
+        try:
+            path = bystander.solve(scn["params"]["solve_timeout_secs"])
+            out.append({"res": "path", "path": [enc(s) for s in path.states]})
+        except BaseException as e:
+            out.append({"res": "panic" if type(e).__name__ == "PanicException" else "err", "text": "bystander: " + str(e)})
     return out, space, world, goal
 
 
@@ -610,7 +641,10 @@ def c20_twins(scn):
                 n[0] += 1
                 if fault_world is None:
                     fault_world = World(spec, world.space, scn["worlds"][1])
-                hit = (n[0] == kth) if kth > 0 else (world.valid(s) and not fault_world.valid(s))
+                if scn["params"].get("fault_everywhere"):
+                    hit = True
+                else:
+                    hit = (n[0] == kth) if kth > 0 else (world.valid(s) and not fault_world.valid(s))
                 if hit and target != 2:
                     if faulty:
                         fired[0] += 1
@@ -748,7 +782,8 @@ def eval_c20(doc):
         return (f"C20/twin_differs/{kind}/{tgt}/kind{int(scn['params']['fault_kind'])}", f"a failing {tgt} callback and one returning False for the same states give different results: {why}"), nontrivial, fired
     # (for k-th-call faults the same state may legitimately be accepted by another call; the
     # clause is about states on which the callback fails whenever it is asked)
-    for c in (a if int(scn["params"]["fault_kth"]) == 0 else []):
+    # (a bystander's result, appended after the scenario's own calls, is another callback's path)
+    for c in (a[:len(scn["calls"])] if int(scn["params"]["fault_kth"]) == 0 else []):
         if c["res"] == "path":
             for s in c["path"]:
                 if any(bits_eq(s, f) for f in failed):
